@@ -321,7 +321,7 @@ def stores_in_branch(comp: Competition, u: UpdateSite) -> List[Event]:
     """Store events that share the update's guards (same accepted branch) and loop nest."""
     out = []
     for e in comp.events:
-        if e.kind == "store" and e.loops == u.event.loops and e.guards == u.event.guards:
+        if e.kind == "store" and e.loops == u.event.loops and facts_of(e) == facts_of(u.event):
             out.append(e)
     return out
 
